@@ -25,7 +25,7 @@ DEFAULT_SEED = 12345
 PROFILES = {
     # everything: shared handles, workers, faults, cache loss, restarts, retyping, aliasing
     "C09": {
-        "n_models": [1, 1, 2],
+        "n_models": [1, 2],
         "want": [{}, {}, {"filter": True}],
         "workers": [1, 2, 2, 3, 3],
         "fault_free_p": 0.4,
@@ -68,6 +68,7 @@ PROFILES = {
         "n_sigs": (2, 3),
         "chaos_ops": (2, 4),
         "spy": ["spy"],
+        "f32_shocks_p": 0.35,
         "pool": (24, 48),
         "on_grid_bias": 0.3,
         "fresh_ref_p": 0.0,
@@ -154,19 +155,23 @@ def make_run_plan(run_seed: int, profile: str, tier: str = "quick", overrides: d
     if not fault_free and not fault_kinds:
         fault_kinds = [rng.choice(["log_error", "callback_raise", "cancel"])]
     extras = {k: rng.random() < 0.5 for k in ["retype", "mutate", "clear_caches", "gc", "dup_handles"]}
-    restart = rng.random() < P["restart_p"]
+    restart = rng.random() < (max(P["restart_p"], 0.75) if n_models == 2 else P["restart_p"])
     spy = rng.choice(P["spy"])
     quanta_mix = rng.choice(list(QUANTA_MIXES))
     big = bool(P.get("big"))
     if big and tier == "thorough":
         P["batch_size"] = rng.choice([(20000, 20000), (50000, 50000), (100000, 100000)])
     fresh_ref = rng.random() < P["fresh_ref_p"]
+    default_leaf = rng.choice(["float", "float", "np", "np0d", "jax"])
 
     # ---------------------------------------------------------------- models, params, batches
     for i in range(n_models):
         mid = f"m{i}"
         want = dict(rng.choice(P["want"]))
-        recipe = catalogue.gen_recipe(rng, f"r{run_seed}_{mid}", want)
+        if i == 1 and rng.random() < P.get("sibling_p", 0.6):
+            recipe = catalogue.sibling_recipe(rng, b.models["m0"], f"r{run_seed}_{mid}")
+        else:
+            recipe = catalogue.gen_recipe(rng, f"r{run_seed}_{mid}", want)
         _, meta = catalogue.render(recipe)
         b.models[mid] = recipe
         b.metas[mid] = meta
@@ -177,6 +182,17 @@ def make_run_plan(run_seed: int, profile: str, tier: str = "quick", overrides: d
                 b.params[f"{mid}p{j}"] = {"model": mid, "values": catalogue.perturb_params(rng, recipe, meta, b.params[f"{mid}p0"]["values"], sparsity)}
             else:
                 b.params[f"{mid}p{j}"] = {"model": mid, "values": catalogue.gen_params(rng, recipe, meta, sparsity)}
+        if meta["stochastic"] and rng.random() < P.get("f32_shocks_p", 0.15):
+            # transition arrays supplied in single precision (values exactly representable, so that
+            # the harness's own row lookup is exact)
+            import numpy as _np
+
+            def _f32(x):
+                return [_f32(y) for y in x] if isinstance(x, list) else float(_np.float32(x))
+
+            last = sorted(p for p in b.params if b.params[p]["model"] == mid)[-1]
+            b.params[last]["values"]["shocks"] = {k: _f32(v) for k, v in b.params[last]["values"]["shocks"].items()}
+            b.params[last]["shocks_dtype"] = "float32"
         pool = [catalogue.gen_agent(rng, recipe, P["on_grid_bias"]) for _ in range(rng.randint(*P["pool"]))]
         b.pools[mid] = pool
         nb = rng.randint(2, 3) if not P.get("membership") else rng.randint(4, 6)
@@ -210,6 +226,16 @@ def make_run_plan(run_seed: int, profile: str, tier: str = "quick", overrides: d
                 "model": mid, "agents": agents, "key_order": ko, "content": bid, "int_dtype": rng.choice(["int64", "int32"]),
                 "a_dtype": rng.choice([a_dtype, "float64"]),
             }
+        if P.get("membership") and rng.random() < P.get("big_batch_p", 0.3):
+            # one large batch and a small one made of its first and last agents
+            nbig = rng.randint(4200, 9000)
+            gen = {"gen_seed": rng.randrange(2**31), "n": nbig, "on_grid_bias": P["on_grid_bias"]}
+            full = catalogue.expand_agents(recipe, gen)
+            small = copy.deepcopy(full[:8] + full[-14:])
+            rng.shuffle(small)
+            for bid, agents in ((f"{mid}bB", gen), (f"{mid}bS", small)):
+                b.batches[bid] = {"model": mid, "agents": agents, "key_order": list(recipe["states_order"]), "content": bid, "int_dtype": "int64", "a_dtype": "float64"}
+                b.batches[bid + "~v"] = dict(b.batches[bid])
 
     # ---------------------------------------------------------------- call signatures
     sigs = []  # dicts: kind, mid, pid, (bid, seed, vp, targets)
@@ -307,7 +333,8 @@ def make_run_plan(run_seed: int, profile: str, tier: str = "quick", overrides: d
     order = list(range(len(sigs)))
     rng.shuffle(order)
     # solves first (their arrays feed the simulate references)
-    order.sort(key=lambda i: 0 if sigs[i]["kind"] == "SOLVE" else 1)
+    # model-major: the reference of the first model is computed before anything of the second exists
+    order.sort(key=lambda i: (0 if sigs[i]["kind"] == "SOLVE" else 1, sigs[i]["mid"]))
     for n_i, i in enumerate(order):
         s = sigs[i]
         tag = n_i if fresh_ref else None
@@ -328,6 +355,8 @@ def make_run_plan(run_seed: int, profile: str, tier: str = "quick", overrides: d
         handles = []
         loads = {}  # (mid, pid) -> LOAD op id
         mids = list(b.models)
+        if inc_index == 1:
+            mids.reverse()  # after a restart the models are built in the opposite order
         cfgs = []
         for mid in mids:
             need_solve = any(s["kind"] == "SOLVE" and s["mid"] == mid for s in sigs)
@@ -338,10 +367,14 @@ def make_run_plan(run_seed: int, profile: str, tier: str = "quick", overrides: d
                 cfgs.append((mid, rng.choice(["solve", "simulate", "solve_and_simulate"])))
             if extras["dup_handles"]:
                 cfgs.append(rng.choice(cfgs))
+        first_build = {}
         for k, (mid, target) in enumerate(cfgs[:5]):
             hid = f"h{inc_index}_{k}"
             w = rng.randrange(n_workers)
             op = build_op(hid, mid, target, jit=rng.random() < 0.6, debug=rng.random() < 0.7, worker=w)
+            if inc_index == 1 and len(mids) == 2 and mid == mids[1] and mids[0] in first_build:
+                op["needs"] = [first_build[mids[0]]]
+            first_build.setdefault(mid, op["id"])
             ops.append(op)
             handles.append({"hid": hid, "mid": mid, "target": target, "build": op["id"]})
         # value arrays from the durable store (after a restart)
@@ -352,7 +385,7 @@ def make_run_plan(run_seed: int, profile: str, tier: str = "quick", overrides: d
         chaos_solve = {}
         priv = {}  # (worker, kind) -> current content
 
-        def make_call(s, w, leaf, hnd=None, prefer_inline_solve=False):
+        def make_call(s, w, leaf, hnd=None, prefer_inline_solve=False, force_v=False):
             """Append what is needed and return the SOLVE/SIMULATE op for signature ``s`` (or None)."""
             if s["kind"] == "SOLVE":
                 hs = [h for h in handles if h["mid"] == s["mid"] and h["target"] == "solve"]
@@ -369,7 +402,7 @@ def make_run_plan(run_seed: int, profile: str, tier: str = "quick", overrides: d
                     return None
                 hnd = rng.choice(hs)
             vsrc, vkind, needs = None, None, [hnd["build"]]
-            must_v = hnd["target"] == "simulate" or s["vp"] != s["pid"]
+            must_v = force_v or hnd["target"] == "simulate" or s["vp"] != s["pid"]
             if must_v or (not prefer_inline_solve and rng.random() < 0.4):
                 cands = []
                 if inc_index == 0 and (s["mid"], s["vp"]) in ref_solve:
@@ -424,15 +457,23 @@ def make_run_plan(run_seed: int, profile: str, tier: str = "quick", overrides: d
             first = True
             # an interrupted estimation loop: one of the later calls fails, the caller repeats it
             hit = rng.randrange(1, len(pattern)) if (fault_kinds and rng.random() < 0.6) else None
+            # value arrays kept by the caller as ONE list of numpy buffers that is refilled in place
+            vf_mode = s0["kind"] == "SIM" and rng.random() < 0.4
+            vkey = f"V{inc_index}_{tag}w{w}:{s0['mid']}"
             for pos, which in enumerate(pattern):
                 s = (s0, s1)[which]
                 if not first:
                     ops.append({"id": b.oid(), "kind": "MUTATE", "worker": w, "obj": ["params", key], "to": s["pid"], "leaf": mleaf, "model_id": s["mid"]})
-                op = make_call(s, w, mleaf, hnd=hnd, prefer_inline_solve=True)
+                op = make_call(s, w, mleaf, hnd=hnd, prefer_inline_solve=not vf_mode, force_v=vf_mode)
                 if op is None:
                     return
                 op["pobj"] = key
                 op["leaf"] = mleaf
+                if vf_mode:
+                    op["vobj"] = vkey
+                    op["vform"] = "np"
+                    if not first:
+                        ops.append({"id": b.oid(), "kind": "MUTATE", "worker": w, "obj": ["vf", vkey], "to": op["vsrc"][1], "needs": [op["vsrc"][1]], "model_id": s["mid"]})
                 if pos == hit:
                     kinds = [k for k in fault_kinds if k != "log_stall"] or ["cancel"]
                     op["_loop_fault"] = rng.choice(kinds)
@@ -445,7 +486,7 @@ def make_run_plan(run_seed: int, profile: str, tier: str = "quick", overrides: d
                 emit_loop(loops[loop_at[k]], loop_at[k])
             s = rng.choice(sigs)
             w = rng.randrange(n_workers)
-            leaf = rng.choice(["float", "np", "np0d", "jax"]) if extras["retype"] else "float"
+            leaf = rng.choice(["float", "np", "np0d", "jax"]) if extras["retype"] else default_leaf
             op = make_call(s, w, leaf)
             if op is None:
                 continue
@@ -465,6 +506,13 @@ def make_run_plan(run_seed: int, profile: str, tier: str = "quick", overrides: d
             if extras["gc"] and rng.random() < 0.12:
                 ops.append({"id": b.oid(), "kind": "GC", "worker": w})
         return ops, handles, chaos_solve
+
+    # the reference of the second model is sometimes computed in an incarnation of its own (a process
+    # that never saw the first model): contamination between models of one process becomes visible
+    iso_models = {"m1"} if (n_models == 2 and rng.random() < P.get("iso_ref_p", 0.7)) else set()
+    ref_ops_iso = [o for o in ref_ops if o["model_id"] in iso_models]
+    ref_ops = [o for o in ref_ops if o["model_id"] not in iso_models]
+    ref_solve = {k: v for k, v in ref_solve.items() if k[0] not in iso_models}
 
     n_chaos = rng.randint(*P["chaos_ops"])
     chaos_ops, handles0, chaos_solve0 = gen_chaos(n_chaos, 0, {})
@@ -525,6 +573,8 @@ def make_run_plan(run_seed: int, profile: str, tier: str = "quick", overrides: d
                 o["vsrc"] = [o["vsrc"][0], final.get(o["vsrc"][1], o["vsrc"][1])]
             if o["kind"] == "STORE":
                 o["src"] = final.get(o["src"], o["src"])
+            if o["kind"] == "MUTATE" and o["obj"][0] == "vf":
+                o["to"] = final.get(o["to"], o["to"])
         for o in out:
             o.pop("_old", None)
         return out, final
@@ -559,8 +609,16 @@ def make_run_plan(run_seed: int, profile: str, tier: str = "quick", overrides: d
         return ops
 
     incarnations = []
-    hashseeds = [rng.randrange(0, 2**32 - 1) for _ in range(2)]
-    sched_seeds = [rng.randrange(0, 2**62) for _ in range(2)]
+    hashseeds = [rng.randrange(0, 2**32 - 1) for _ in range(3)]
+    sched_seeds = [rng.randrange(0, 2**62) for _ in range(3)]
+    if ref_ops_iso:
+        incarnations.append(
+            {
+                "hashseed": hashseeds[2],
+                "sched": {"seed": sched_seeds[2], "quanta": QUANTA, "weights": QUANTA_MIXES[quanta_mix]},
+                "phases": [{"name": "reference", "n_workers": 1, "ops": ref_ops_iso}],
+            }
+        )
 
     def sched_cfg(i):
         return {"seed": sched_seeds[i], "quanta": QUANTA, "weights": QUANTA_MIXES[quanta_mix]}
@@ -633,7 +691,8 @@ def make_run_plan(run_seed: int, profile: str, tier: str = "quick", overrides: d
         "incarnations": incarnations,
         "swarm": {
             "n_models": n_models, "n_workers": n_workers, "fault_kinds": fault_kinds, "extras": extras,
-            "restart": restart, "spy": spy, "quanta": quanta_mix, "fresh_ref": fresh_ref,
+            "restart": restart, "spy": spy, "quanta": quanta_mix, "fresh_ref": fresh_ref, "leaf": default_leaf,
+            "iso_ref": sorted(iso_models),
         },
     }
 
